@@ -92,6 +92,12 @@ func c19Cases(tier string) []c19Case {
 			out = append(out, c19Case{sz, 3, 3, 0, d, []int64{10, 10, 10}, "minter", "ethereum", -1, false, 0, false})
 		}
 	}
+	// a fee equal to the average reimbursement truncated to external units (below the average itself)
+	for _, sz := range []int{2, 3} {
+		for _, d := range []uint64{6, 18} {
+			out = append(out, c19Case{sz, 4, 4, 0, d, []int64{10, 10, 10}, "minter", "ethereum", -1, false, 0, false})
+		}
+	}
 	// two withdrawals with different fees in one hub transaction
 	for _, d := range []uint64{6, 18} {
 		out = append(out, c19Case{2, 1, 1, 0, d, []int64{10, 10, 10}, "hub", "ethereum", -1, false, 0, true})
@@ -185,6 +191,14 @@ func c19Run(in *hub.Instance, cs c19Case) (res c19Res) {
 			fees[i] = new(big.Int).Set(unit)
 			if i == 0 {
 				fees[i] = new(big.Int).Mul(unit, big.NewInt(1000))
+			}
+		case 4:
+			// 3 and 40 units of a 6-decimals token; with FeePaid 4 the average reimbursement per transfer is 3.75 units: the
+			// first transfer paid less than the average (it counts for no refund), yet as much as the average truncated to
+			// whole external units
+			fees[i] = new(big.Int).Mul(pow10(12), big.NewInt(3))
+			if i > 0 {
+				fees[i] = new(big.Int).Mul(pow10(12), big.NewInt(40))
 			}
 		case 3:
 			// thousands of whole tokens, in the ratio 2 : 1 : 1 ... (shares 2/3, 1/3: one of them is a repeating decimal
@@ -287,6 +301,8 @@ func c19Run(in *hub.Instance, cs c19Case) (res c19Res) {
 	in.Hub.IterateUnbatchedSendToExternals(in.Ctx(), "minter", func(s *mhubtypes.SendToExternal) bool { before[s.Id] = true; return false })
 	feePaid := sdk.ZeroInt()
 	switch cs.FeePaid {
+	case 4:
+		feePaid = sdk.NewIntFromBigInt(new(big.Int).Mul(pow10(12), big.NewInt(5))) // reimbursed 7.5e12 at price ratio 1
 	case 3:
 		feePaid = sdk.NewInt(1) // an almost free relay: the whole fee is surplus
 	case 1:
@@ -313,9 +329,16 @@ func c19Run(in *hub.Instance, cs c19Case) (res c19Res) {
 	for _, v := range vals {
 		in.DeliverMsg(hub.EventMsg(v.Orch, cs.Chain, ev))
 	}
+	in.ErrLog = nil
 	if p := in.EndBlock(); p != nil {
 		res.outcome = "block-failure"
 		return
+	}
+	for _, m := range in.ErrLog {
+		// a listed token, prices and Minter keys are in place: nothing justifies dropping the payouts of the batch
+		if strings.Contains(m, "payouts of an executed batch failed") {
+			bad("payouts_of_executed_batch_failed", "batchTxExecuted", "%s", m)
+		}
 	}
 	// batch must be gone (event applied)
 	still := false
